@@ -1,3 +1,44 @@
-From Sigtools.Model Require Import Base Bind Algebra.
-Theorem C09_placeholder : True. Proof. exact I. Qed.
-Print Assumptions C09_placeholder.
+(* C09 — merge loses nothing when inputs agree on names; identity and fold laws. *)
+From Sigtools.Model Require Import Base Bind Roles Algebra Universe.
+From Sigtools.Proofs Require Import SmallModel Basics SweepDefs Bounded.
+
+(* apply_params(s, *sort_params(s)) equals s, for all valid signatures *)
+Theorem C09_sort_apply_roundtrip s :
+  valid_sig (params s) = true -> apply_params s (sort_params s) = Ok s.
+Proof. exact (apply_sort_roundtrip s). Qed.
+Print Assumptions C09_sort_apply_roundtrip.
+
+Theorem C09_sort_flatten s :
+  valid_sig (params s) = true -> flatten (sort_params s) = params s.
+Proof. exact (sort_flatten_roundtrip s). Qed.
+Print Assumptions C09_sort_flatten.
+
+(* merge(s) equals s *)
+Theorem C09_merge_single s : valid_sig (params s) = true -> merge [s] = Ok s.
+Proof. exact (merge_single s). Qed.
+Print Assumptions C09_merge_single.
+
+(* the exactness decider is complete for ALL calls *)
+Theorem C09_decider_complete r inputs :
+  exact_cex r inputs = None ->
+  forall c, noncolliding c r inputs = true ->
+            accepts r c = forallb (fun s => accepts s c) inputs.
+Proof. exact (exact_cex_complete r inputs). Qed.
+Print Assumptions C09_decider_complete.
+
+Theorem C09_none_decider_complete inputs :
+  none_cex inputs = None -> forall c, forallb (fun s => accepts s c) inputs = false.
+Proof. exact (none_cex_complete inputs). Qed.
+Print Assumptions C09_none_decider_complete.
+
+(* Bounded (bound in the statement): exactness and the raise condition for all
+   name-aligned role-consistent pairs of U(2,{a,b}), ALL calls *)
+Theorem C09_exact_pairs_U2 a b :
+  In a U2ab -> In b U2ab -> name_aligned a b = true -> role_consistent [a; b] = true ->
+  match merge [mk a; mk b] with
+  | Ok r => forall c, noncolliding c (params r) [a; b] = true ->
+                      accepts (params r) c = accepts a c && accepts b c
+  | Err e => e = Incompatible /\ forall c, accepts a c && accepts b c = false
+  end.
+Proof. exact (merge_exact_pairs_U2 a b). Qed.
+Print Assumptions C09_exact_pairs_U2.
